@@ -1725,6 +1725,8 @@ class C03(Prop):
                      model_same=(fm is not None and fm["status"] == st))
             if info is not None and info.kind == "sincin" and info.p[-1] == "rprobe" and info.p[3] in ("1", "2"):
                 v["class"] = "sincin:user-interpolator-len-below-3"       # witness class of finding D18
+            if info is not None and info.kind == "sincout" and info.p[-1] == "rprobe" and info.p[3] in ("1", "2", "3"):
+                v["class"] = "sincout:user-interpolator-len-below-4"      # witness class of finding D20
             if fm is not None and fm.get("site") and "position diverges" in fm["site"]:
                 # the model's stepping loop ran to its idle fuel: no active channel and a position that moves away from
                 # end_idx (witness class of finding D17)
@@ -2637,8 +2639,8 @@ class C17(Prop):
     pid = "C17"
     rule = ("twin slots with identical parameters and call history, slot 0 instantiated for f32, slot 1 for f64, all seven "
             "types, valid histories with ratio/chunk changes, masks, partial calls: statuses, returned counts and all getters "
-            "must be identical at every step; dumped outputs must agree within 64*eps_f32*(peak+1) (sinc/FFT: filter gain "
-            "included in the peak). distinct = (config, feature set)")
+            "must be identical at every step; dumped outputs must agree within (64 + sqrt(table points))*eps_f32*peak (the square root "
+            "term only for the real sinc tables, built in the sample type). distinct = (config, feature set)")
     assumptions = COMMON_ASSUME + ["the numeric closeness is measured, not proved"]
     n_quick = 120
     n_thorough = 3000
@@ -2694,8 +2696,15 @@ class C17(Prop):
                     if va is None or vb is None:
                         continue
                     peak = max([1.0] + [abs(x) for x in vb])
+                    # 64 eps for the arithmetic of one output frame; the sinc types build their table in the sample type, and its
+                    # normalisation constant is a sum of N = sinc_len x oversampling_factor f32 terms: a common gain error of
+                    # the order sqrt(N) eps (measured on the unchanged tree: 38 eps at 64x128, 64 at 128x128, 85 at 512x256)
+                    mult = 64.0
+                    i0 = infos.get("0")
+                    if i0 is not None and i0.kind in ("sincin", "sincout") and i0.p[-1] in ("auto", "scalar", "avx", "sse"):
+                        mult += math.sqrt(i0.L * int(i0.p[4]))
                     for j, (x, y) in enumerate(zip(va, vb)):
-                        if not abs(x - y) <= 64 * 2.0 ** -23 * peak:
+                        if not abs(x - y) <= mult * 2.0 ** -23 * peak:
                             out.append(viol("C17", h, k, infos.get("0"), "f32-output-far-from-f64",
                                             {"channel": c, "frame": j, "f32": x, "f64": y, "peak": peak}))
                             return out
